@@ -11,7 +11,9 @@
 (*                                  is delivered to Vouch; outside the property's quantifier)         *)
 (*   Crash{ep, text, frame, fatal}  a panic recovered in the calling goroutine (fatal = FALSE) or    *)
 (*                                  the death of the child process (fatal = TRUE)                    *)
-(* There is no trace action for Crash, so a trace containing one is rejected at that line.           *)
+(*   Stuck{ep}                      the scenario did not end within the watchdog time                *)
+(* There is no trace action for Crash and none for Stuck ("the affected duty ENDS with an error or a   *)
+(* fallback"), so a trace containing one is rejected at that line.                                    *)
 EXTENDS Robustness, TraceLib
 
 VARIABLE l
